@@ -7,6 +7,7 @@ from spacepackets.ecss import pus_1_verification as s1
 from spacepackets.ecss.tc import PusTc
 from spacepackets.ecss.tm import PusTm
 from harness import pus_common as pc
+from harness import core
 
 ID = "C15"
 ENUMS = [
@@ -38,6 +39,8 @@ ASSUMPTIONS = [
     "theorem of the model and sampled on the implementation (2^32 cannot be enumerated)",
 ]
 TRUSTED = []
+# streams whose statement is evaluated by the adapter on the implementation alone (op 799, no model behind it)
+EXPLORED_ONLY = ["explore_telecommand_stand_ins"]
 ORACLE_LIMIT = {"quick": 30000, "thorough": 200000}
 UNDOC = (20, 21, 22, 23, 24, 25, 99)
 WIDTHS = (1, 2, 4, 8)
@@ -49,18 +52,36 @@ def _b(s):
 
 
 def _ptype(t):
-    return sp.PacketType(t) if t in (0, 1) else t
+    # the library's enum member - or, for every fifth case of a stream, the equal plain int
+    return core.enum_or_int(sp.PacketType, t)
 
 
 def _flags(f):
-    return sp.SequenceFlags(f) if f in (0, 1, 2, 3) else f
+    return core.enum_or_int(sp.SequenceFlags, f)
 
 
 def _reqid(l):
+    # core.build: by keyword, and for every seventh case of a stream positionally in the documented order
     v, t, s, ap, f, c = l
-    pid = sp.PacketId(_ptype(t), _b(s), ap)
-    psc = sp.PacketSeqCtrl(_flags(f), c)
-    return RequestId(pid, psc, v)
+    pid = core.build(sp.PacketId, ptype=_ptype(t), sec_header_flag=_b(s), apid=ap)
+    psc = core.build(sp.PacketSeqCtrl, seq_flags=_flags(f), seq_count=c)
+    return core.build(RequestId, tc_packet_id=pid, tc_psc=psc, ccsds_version=v)
+
+
+def _pfe(pfc, val):
+    return core.build(PacketFieldEnum, pfc=pfc, val=val)
+
+
+def _unpack_params(tl, ws, we):
+    return core.build(s1.UnpackParams, timestamp_len=tl, bytes_step_id=ws, bytes_err_code=we)
+
+
+def _s1_unpack(data, params):
+    return core.build(s1.Service1Tm.unpack, data=data, params=params)
+
+
+def _tm_unpack(data, tl):
+    return core.build(PusTm.unpack, data=data, timestamp_len=tl)
 
 
 def _rq_fields(r):
@@ -70,14 +91,14 @@ def _rq_fields(r):
 
 def _hdr(l):
     t, a, c, d, s, f, v = l
-    return sp.SpacePacketHeader(packet_type=_ptype(t), apid=a, seq_count=c, data_len=d, sec_header_flag=_b(s),
-                                seq_flags=_flags(f), ccsds_version=v)
+    return core.build(sp.SpacePacketHeader, packet_type=_ptype(t), apid=a, seq_count=c, data_len=d, sec_header_flag=_b(s),
+                      seq_flags=_flags(f), ccsds_version=v)
 
 
 def _tc(a0, a1):
     service, subservice, apid, seq, source_id, ack = a0
-    return PusTc(service=service, subservice=subservice, apid=apid, app_data=bytes(a1), seq_count=seq,
-                 source_id=source_id, ack_flags=ack)
+    return core.build(PusTc, service=service, subservice=subservice, apid=apid, app_data=bytes(a1), seq_count=seq,
+                      source_id=source_id, ack_flags=ack)
 
 
 _HELPERS = {8: PacketFieldU8, 16: PacketFieldU16, 32: PacketFieldU32}
@@ -90,7 +111,7 @@ def _opt_pfe(l):
         return None
     if l[1] in _HELPERS and l[2] % 2 == 1 and 0 <= l[2] < 2 ** l[1]:
         return _HELPERS[l[1]](l[2])
-    return PacketFieldEnum(l[1], l[2])
+    return _pfe(l[1], l[2])
 
 
 def _of_opt_pfe(f):
@@ -99,14 +120,14 @@ def _of_opt_pfe(f):
 
 def _opt_fn(code, data):
     c = _opt_pfe(code)
-    return None if c is None else s1.FailureNotice(c, bytes(data))
+    return None if c is None else core.build(s1.FailureNotice, code=c, data=bytes(data))
 
 
 def _vp(a, i):
     req = _reqid(a[i])
     step = _opt_pfe(a[i + 1])
     fn = _opt_fn(a[i + 2], a[i + 3])
-    return s1.VerificationParams(req, step, fn)
+    return core.build(s1.VerificationParams, req_id=req, step_id=step, failure_notice=fn)
 
 
 def _vp_fields_raw(req, step, fn):
@@ -136,20 +157,20 @@ def _srv1(a):
     vp = _vp(a, 2) if has_vp else None
     if (seq, ver, ref, dest) == (0, 0, 0, 0):     # the constructor's defaults
         return s1.Service1Tm(apid, sub, bytes(a[1]), vp) if has_vp else s1.Service1Tm(apid, sub, bytes(a[1]))
-    return s1.Service1Tm(apid=apid, subservice=sub, timestamp=bytes(a[1]), verif_params=vp, seq_count=seq,
-                         packet_version=ver, space_time_ref=ref, destination_id=dest)
+    return core.build(s1.Service1Tm, apid=apid, subservice=sub, timestamp=bytes(a[1]), verif_params=vp, seq_count=seq,
+                      packet_version=ver, space_time_ref=ref, destination_id=dest)
 
 
 def _params(l):
     if l[1] == 1 and l[2] == 1:
         return s1.UnpackParams(l[0])          # the documented defaults: one-octet step ID and error code
-    return s1.UnpackParams(l[0], l[1], l[2])
+    return _unpack_params(l[0], l[1], l[2])
 
 
 def _tm(a):
     service, subservice, apid, seq, msgcnt, ref, dest, version = a[0]
-    return PusTm(service=service, subservice=subservice, timestamp=bytes(a[1]), source_data=bytes(a[2]), apid=apid,
-                 seq_count=seq, message_counter=msgcnt, space_time_ref=ref, destination_id=dest, packet_version=version)
+    return core.build(PusTm, service=service, subservice=subservice, timestamp=bytes(a[1]), source_data=bytes(a[2]), apid=apid,
+                      seq_count=seq, message_counter=msgcnt, space_time_ref=ref, destination_id=dest, packet_version=version)
 
 
 
@@ -206,10 +227,10 @@ def _pfe_build(l):
     if kind == 1 and pfc in _HELPERS:
         return _HELPERS[pfc](val)
     if kind == 2:
-        return PacketFieldEnum.with_byte_size(pfc // 8, val)
+        return core.build(PacketFieldEnum.with_byte_size, num_bytes=pfc // 8, val=val)
     if kind == 3:
-        return PacketFieldEnum.unpack(bytearray(PacketFieldEnum(pfc, val).pack()) + b"\x07", pfc)
-    return PacketFieldEnum(pfc, val)
+        return core.build(PacketFieldEnum.unpack, data=bytearray(_pfe(pfc, val).pack()) + b"\x07", pfc=pfc)
+    return _pfe(pfc, val)
 
 
 def _rq_build(kind, l):
@@ -217,16 +238,18 @@ def _rq_build(kind, l):
     if kind == 1:
         return RequestId.unpack(bytearray(_reqid(l).pack()) + b"\xa5")
     if kind == 2:
-        return RequestId.from_sp_header(sp.SpacePacketHeader(packet_type=_ptype(t), apid=ap, seq_count=c, data_len=0,
-                                                             sec_header_flag=_b(s), seq_flags=_flags(f), ccsds_version=v))
+        return RequestId.from_sp_header(core.build(sp.SpacePacketHeader, packet_type=_ptype(t), apid=ap, seq_count=c, data_len=0,
+                                                   sec_header_flag=_b(s), seq_flags=_flags(f), ccsds_version=v))
     if kind == 3:
         return RequestId.empty()
     return _reqid(l)
 
 
 def _rq_eq_fresh(r):
-    fresh = RequestId(sp.PacketId(r.tc_packet_id.ptype, r.tc_packet_id.sec_header_flag, r.tc_packet_id.apid),
-                      sp.PacketSeqCtrl(r.tc_psc.seq_flags, r.tc_psc.seq_count), r.ccsds_version)
+    fresh = core.build(RequestId, tc_packet_id=core.build(sp.PacketId, ptype=r.tc_packet_id.ptype,
+                                                          sec_header_flag=r.tc_packet_id.sec_header_flag, apid=r.tc_packet_id.apid),
+                       tc_psc=core.build(sp.PacketSeqCtrl, seq_flags=r.tc_psc.seq_flags, seq_count=r.tc_psc.seq_count),
+                       ccsds_version=r.ccsds_version)
     u = RequestId.unpack(r.pack())
     return [r == fresh, fresh == r, hash(r) == hash(fresh), r == u]
 
@@ -265,7 +288,7 @@ def _pfe_op(f, o):
         return _row(lambda: [f.len()])
     if k == 5:
         def eq():
-            g = PacketFieldEnum(f.pfc, f.val)
+            g = _pfe(f.pfc, f.val)
             return [f == g, g == f]
         return _row(eq)
     return [0, f.pfc, f.val]
@@ -308,7 +331,7 @@ def _s1_build(a):
     if kind == 3:
         apid, k = a[0][0], a[0][1]
         rq = a[2]
-        tc = PusTc(service=17, subservice=1, apid=rq[3], seq_count=rq[5])
+        tc = core.build(PusTc, service=17, subservice=1, apid=rq[3], app_data=bytes(), seq_count=rq[5])
         step = _opt_pfe(a[3]); fn = _opt_fn(a[4], a[5]); ts = bytes(a[1])
         return _create(k, apid, tc, step, fn, ts)
     s = _srv1(a)
@@ -316,25 +339,32 @@ def _s1_build(a):
         return s
     raw = s.pack()
     if kind == 1:
-        return s1.Service1Tm.unpack(bytes(raw), s1.UnpackParams(len(a[1]), ws, we))
-    return s1.Service1Tm.from_tm(PusTm.unpack(bytes(raw), len(a[1])), s1.UnpackParams(len(a[1]), ws, we))
+        return _s1_unpack(bytes(raw), _unpack_params(len(a[1]), ws, we))
+    return core.build(s1.Service1Tm.from_tm, tm=_tm_unpack(bytes(raw), len(a[1])), params=_unpack_params(len(a[1]), ws, we))
 
 
 def _create(k, apid, tc, step, fn, ts):
+    """the helper of subservice k: called positionally as documented, and by the documented parameter names for every third
+    APID (a property of the case, so that a replay makes the same call)"""
     if k in (1, 3, 7):
         fnc = {1: s1.create_acceptance_success_tm, 3: s1.create_start_success_tm, 7: s1.create_completion_success_tm}[k]
-        return fnc(apid, tc, ts)
-    if k in (2, 4, 8):
+        names, vals = ("apid", "pus_tc", "timestamp"), (apid, tc, ts)
+    elif k in (2, 4, 8):
         fnc = {2: s1.create_acceptance_failure_tm, 4: s1.create_start_failure_tm, 8: s1.create_completion_failure_tm}[k]
-        return fnc(apid, tc, fn, ts)
-    if k == 5:
-        return s1.create_step_success_tm(apid, tc, step, ts)
-    return s1.create_step_failure_tm(apid, tc, step, fn, ts)
+        names, vals = ("apid", "pus_tc", "failure_notice", "timestamp"), (apid, tc, fn, ts)
+    elif k == 5:
+        fnc, names, vals = s1.create_step_success_tm, ("apid", "pus_tc", "step_id", "timestamp"), (apid, tc, step, ts)
+    else:
+        fnc = s1.create_step_failure_tm
+        names, vals = ("apid", "pus_tc", "step_id", "failure_notice", "timestamp"), (apid, tc, step, fn, ts)
+    if isinstance(apid, int) and apid % 3 == 0 and not core.POSITIONAL:
+        return fnc(**dict(zip(names, vals)))
+    return fnc(*vals)
 
 
 def _s1_redecode(s, ws, we):
     raw = s.pack()
-    return s1.Service1Tm.unpack(bytearray(raw) + b"\xa5\x5a", s1.UnpackParams(len(s.pus_tm.timestamp), ws, we))
+    return _s1_unpack(bytearray(raw) + b"\xa5\x5a", _unpack_params(len(s.pus_tm.timestamp), ws, we))
 
 
 def _s1_op(cur, o):
@@ -378,19 +408,19 @@ def impl(op, a):
     if op == 706:
         r = RequestId.from_pus_tc(_tc(a[0], a[1])); return [_rq_fields(r), list(r.pack())]
     if op == 710:
-        f = PacketFieldEnum(a[0][0], a[0][1]); return [[f.pfc, f.val, f.len()]]
+        f = _pfe(a[0][0], a[0][1]); return [[f.pfc, f.val, f.len()]]
     if op == 711:
-        return [list(PacketFieldEnum(a[0][0], a[0][1]).pack())]
+        return [list(_pfe(a[0][0], a[0][1]).pack())]
     if op == 712:
-        f = PacketFieldEnum.unpack(bytes(a[0]), a[1][0]); return [[f.pfc, f.val]]
+        f = core.build(PacketFieldEnum.unpack, data=bytes(a[0]), pfc=a[1][0]); return [[f.pfc, f.val]]
     if op == 713:
         return [[PacketFieldEnum.check_pfc(a[0][0])]]
     if op == 714:
-        f = PacketFieldEnum.with_byte_size(a[0][0], a[0][1]); b = f.pack(); return [list(b), [f.len()]]
+        f = core.build(PacketFieldEnum.with_byte_size, num_bytes=a[0][0], val=a[0][1]); b = f.pack(); return [list(b), [f.len()]]
     if op == 715:
-        x = PacketFieldEnum(a[0][0], a[0][1]); y = PacketFieldEnum(a[0][2], a[0][3]); return [[int(x == y)]]
+        x = _pfe(a[0][0], a[0][1]); y = _pfe(a[0][2], a[0][3]); return [[int(x == y)]]
     if op == 716:
-        return [list(PacketFieldEnum.unpack(bytes(a[0]), a[1][0]).pack())]
+        return [list(core.build(PacketFieldEnum.unpack, data=bytes(a[0]), pfc=a[1][0]).pack())]
     if op == 717:
         cls = {1: PacketFieldU8, 2: PacketFieldU16, 4: PacketFieldU32}[a[0][0]]
         f = cls(a[0][1]); b = f.pack(); return [list(b), [f.len()]]
@@ -399,13 +429,14 @@ def impl(op, a):
     if op == 749:
         x = _srv1(a[:6]); y = _srv1(a[6:]); return [[int(x == y)]]
     if op == 720:
-        f = s1.FailureNotice(PacketFieldEnum(a[0][0], a[0][1]), bytes(a[1])); b = f.pack(); return [list(b), [f.len()]]
+        f = core.build(s1.FailureNotice, code=_pfe(a[0][0], a[0][1]), data=bytes(a[1])); b = f.pack(); return [list(b), [f.len()]]
     if op == 721:
-        f = s1.FailureNotice.unpack(bytes(a[0]), a[1][0], None if a[2][0] == 0 else a[2][1])
+        f = core.build(s1.FailureNotice.unpack, data=bytes(a[0]), num_bytes_err_code=a[1][0],
+                       num_bytes_data=None if a[2][0] == 0 else a[2][1])
         return [[f.code.pfc, f.code.val], list(f.data)]
     if op == 722:
-        f = s1.FailureNotice(PacketFieldEnum(a[0][0], a[0][1]), bytes(a[1])); b = f.pack()
-        g = s1.FailureNotice.unpack(bytes(b), a[2][0])
+        f = core.build(s1.FailureNotice, code=_pfe(a[0][0], a[0][1]), data=bytes(a[1])); b = f.pack()
+        g = core.build(s1.FailureNotice.unpack, data=bytes(b), num_bytes_err_code=a[2][0])
         return [[int((g == f) and (f == g))], [g.code.pfc, g.code.val], list(g.data)]
     if op == 730:
         _vp(a, 0).verify_against_subservice(a[4][0]); return [[0]]
@@ -418,35 +449,26 @@ def impl(op, a):
         return [list(raw), [s.pus_tm.packet_len]] + _vp_fields_raw(s.tc_req_id, s.step_id, s.failure_notice)
     if op == 742:
         s = _srv1(a); raw = s.pack()
-        u = s1.Service1Tm.unpack(bytes(raw), s1.UnpackParams(len(a[1]), a[6][0], a[6][1]))
+        u = _s1_unpack(bytes(raw), _unpack_params(len(a[1]), a[6][0], a[6][1]))
         e1 = u == s; e2 = s == u
         q = u.pack()
         return [[int(e1 and e2)], list(q)] + _srv1_fields(u)
     if op == 743:
-        return _srv1_fields(s1.Service1Tm.unpack(bytes(a[0]), _params(a[1])))
+        return _srv1_fields(_s1_unpack(bytes(a[0]), _params(a[1])))
     if op == 744:
-        return _srv1_fields(s1.Service1Tm.from_tm(_tm(a), s1.UnpackParams(0, a[3][0], a[3][1])))
+        return _srv1_fields(core.build(s1.Service1Tm.from_tm, tm=_tm(a), params=_unpack_params(0, a[3][0], a[3][1])))
     if op == 745:
         k, apid = a[0]
         tc = _tc(a[1], a[2]); step = _opt_pfe(a[4]); fn = _opt_fn(a[5], a[6]); ts = bytes(a[3])
-        if k in (1, 3, 7):
-            fnc = {1: s1.create_acceptance_success_tm, 3: s1.create_start_success_tm, 7: s1.create_completion_success_tm}[k]
-            s = fnc(apid, tc, ts)
-        elif k in (2, 4, 8):
-            fnc = {2: s1.create_acceptance_failure_tm, 4: s1.create_start_failure_tm, 8: s1.create_completion_failure_tm}[k]
-            s = fnc(apid, tc, fn, ts)
-        elif k == 5:
-            s = s1.create_step_success_tm(apid, tc, step, ts)
-        else:
-            s = s1.create_step_failure_tm(apid, tc, step, fn, ts)
+        s = _create(k, apid, tc, step, fn, ts)
         raw = s.pack()
         return [list(raw)] + _vp_fields_raw(s.tc_req_id, s.step_id, s.failure_notice)
     if op == 746:
-        return [list(s1.Service1Tm.unpack(bytes(a[0]), _params(a[1])).pack())]
+        return [list(_s1_unpack(bytes(a[0]), _params(a[1])).pack())]
     if op == 747:
         return [_of_opt_pfe(_srv1(a).error_code)]
     if op == 748:
-        return [_of_opt_pfe(s1.Service1Tm.unpack(bytes(a[0]), _params(a[1])).error_code)]
+        return [_of_opt_pfe(_s1_unpack(bytes(a[0]), _params(a[1])).error_code)]
     if op == 718:
         x = _pfe_build(a[0]); y = _pfe_build(a[1]); return [[int(x == y), int(y == x)]]
     if op == 760:
@@ -469,8 +491,8 @@ def impl(op, a):
         return rows + [[1]]
     if op == 764:
         mode = a[4][0]
-        dec = (lambda d, p: s1.Service1Tm.unpack(d, p)) if mode == 0 else \
-              (lambda d, p: s1.Service1Tm.from_tm(PusTm.unpack(d, p.timestamp_len), p))
+        dec = (lambda d, p: _s1_unpack(d, p)) if mode == 0 else \
+              (lambda d, p: core.build(s1.Service1Tm.from_tm, tm=_tm_unpack(d, p.timestamp_len), params=p))
         u = dec(bytes(a[0]), _params(a[1]))
         before = _srv1_fields(u)
         if mode == 2:
@@ -486,13 +508,13 @@ def impl(op, a):
     if op == 765:
         ts = bytearray(a[1]); data = bytearray(a[5])
         apid, sub, seq, ver, ref, dest, has_vp = a[0]
-        vp = s1.VerificationParams(_reqid(a[2]), _opt_pfe(a[3]), _opt_fn(a[4], data))
+        vp = core.build(s1.VerificationParams, req_id=_reqid(a[2]), step_id=_opt_pfe(a[3]), failure_notice=_opt_fn(a[4], data))
         keep = _snap(vp)
-        s = s1.Service1Tm(apid=apid, subservice=sub, timestamp=ts, verif_params=vp, seq_count=seq,
-                          packet_version=ver, space_time_ref=ref, destination_id=dest)
+        s = core.build(s1.Service1Tm, apid=apid, subservice=sub, timestamp=ts, verif_params=vp, seq_count=seq,
+                       packet_version=ver, space_time_ref=ref, destination_id=dest)
         raw = s.pack()
         buf = bytearray(raw) + bytes(a[7] if len(a) > 7 else [])
-        u = s1.Service1Tm.unpack(buf, s1.UnpackParams(len(a[1]), a[6][0], a[6][1]))
+        u = _s1_unpack(buf, _unpack_params(len(a[1]), a[6][0], a[6][1]))
         for i in range(len(buf)):
             buf[i] ^= 0xFF
         raw.extend(b"\x00")
@@ -506,11 +528,78 @@ def impl(op, a):
         keep = (_snap(tc), _snap(step), _snap(fn))
         s = _create(k, apid, tc, step, fn, ts)
         raw = s.pack()
-        u = s1.Service1Tm.unpack(bytes(raw), s1.UnpackParams(len(a[3]), a[7][0], a[7][1]))
+        u = _s1_unpack(bytes(raw), _unpack_params(len(a[3]), a[7][0], a[7][1]))
         e1 = u == s; e2 = s == u
         q = u.pack()
         return [[int(e1 and e2)], list(q)] + _srv1_fields(u) + [[int((_snap(tc), _snap(step), _snap(fn)) == keep)]]
+    if op == 767:
+        # decode from a buffer that may continue behind the packet, then EVERY observable of the decoded report
+        pr = _params(a[1])
+        u = _s1_unpack(bytes(a[0]), pr)
+        first = _srv1_fields(u)
+        p1 = u.pus_tm.pack(recalc_crc=False)
+        p2 = u.pack()
+        w = _s1_unpack(bytes(a[0][:u.pus_tm.packet_len]), pr)
+        e1 = u == w; e2 = w == u
+        return first + [list(p1), list(p2), [int(e1), int(e2)]] + _srv1_fields(u)
+    if op == 799:
+        return _explore_stand_in(a)
     raise RuntimeError("bad op")
+
+
+# ------------------------------------------------------------------ exploration outside the model (op 799)
+# "The request ID of a telecommand is exactly the first four octets of its space packet header ... every service-1 report
+# built for a telecommand carries that request ID."  RequestId.from_pus_tc and the eight create_*_tm helpers take "the
+# telecommand"; callers hand them a PusTc, a subclass, any object with an sp_header - and, where an application only
+# kept them, a stored RequestId / a SpacePacketHeader / the packed octets.  Statement evaluated here: whatever stands in
+# for the telecommand is either REFUSED (any exception) or the request ID obtained is exactly the four octets that
+# identify it.  (The unchanged library refuses the last three kinds with AttributeError.)
+class _MyTc(PusTc):
+    pass
+
+
+STAND_INS = ("PusTc", "PusTc-subclass", "object-with-sp_header", "RequestId", "SpacePacketHeader", "packed-octets")
+
+
+def _explore_stand_in(a):
+    import types
+    kind, helper, apid = a[0]
+    v, t, s_, ap, f, c = a[1]
+    ts = bytes(a[2])
+    hdr = sp.SpacePacketHeader(packet_type=_ptype(t), apid=ap, seq_count=c, data_len=6, sec_header_flag=_b(s_),
+                               seq_flags=_flags(f), ccsds_version=v)
+    expected = list(hdr.pack()[:4])
+    if kind in (0, 1):
+        x = (PusTc if kind == 0 else _MyTc)(service=17, subservice=1, apid=ap, seq_count=c)
+        x.sp_header = hdr
+    elif kind == 2:
+        x = types.SimpleNamespace(sp_header=hdr)
+    elif kind == 3:
+        x = RequestId(sp.PacketId(_ptype(t), _b(s_), ap), sp.PacketSeqCtrl(_flags(f), c), v)
+    elif kind == 4:
+        x = hdr
+    else:
+        y = PusTc(service=17, subservice=1, apid=ap, seq_count=c); y.sp_header = hdr
+        x = bytes(y.pack())
+    step = PacketFieldEnum(8, 3); fn = s1.FailureNotice(PacketFieldEnum(8, 9), b"\x01\x02")
+    try:
+        if helper == 0:
+            rid = RequestId.from_pus_tc(x); rep = None
+        else:
+            rep = _create(helper, apid, x, step, fn, ts); rid = rep.tc_req_id
+    except Exception:  # noqa: a refusal of the argument is one of the two admissible outcomes
+        return [[1]]
+    got = list(rid.pack())
+    if got != expected:
+        return [[0, kind, helper, 1] + got]
+    if rep is not None:
+        raw = rep.pack()
+        if list(raw[13 + len(ts):17 + len(ts)]) != expected:
+            return [[0, kind, helper, 2] + list(raw[13 + len(ts):17 + len(ts)])]
+        u = s1.Service1Tm.unpack(bytes(raw), s1.UnpackParams(len(ts), 1, 1))
+        if list(u.tc_req_id.pack()) != expected:
+            return [[0, kind, helper, 3] + list(u.tc_req_id.pack())]
+    return [[1]]
 
 
 # ------------------------------------------------------------------ independent layouts (oracle side)
@@ -1078,6 +1167,77 @@ def harden_streams(tier, rng):
                 tc = pc.rand_tc_args(rng, 10)
                 cases.append((766, [[k, pc.pick(rng, pc.BND11, 2048)], tc[0], tc[1], pc.rbytes(rng, rng.choice([0, 7, 16])), step, code, data, [ws, we]]))
     yield "create_helpers_roundtrip", "exact", cases
+    yield "decode_with_suffix_every_observable", "exact", suffix_observable_cases(rng, big)
+    yield "crc_value_coincidences", "exact", crc_coincidence_cases(rng, big)
+    # what stands in for "the telecommand" x every entry point that takes one (exploration outside the model, op 799)
+    cases = []
+    for kind in range(len(STAND_INS)):
+        for helper in range(0, 9):
+            for _ in range(6 if big else 2):
+                rq = rand_reqid(rng)
+                if rng.random() < 0.7:
+                    rq[0] = rng.randrange(1, 8)            # version bits other than the default
+                cases.append((799, [[kind, helper, pc.pick(rng, pc.BND11, 2048)], rq, pc.rbytes(rng, rng.choice([0, 7]))]))
+    yield "explore_telecommand_stand_ins", "exact", cases
+
+
+# a valid report followed by further octets (fill octets of a frame, the next packet): the decoded object must be the
+# same in every observable as when decoded from exactly its own octets
+def suffix_observable_cases(rng, big):
+    cases = []
+    reps = [rand_report(rng) for _ in range(120 if big else 40)]
+    reps += [rand_report(rng, 6, 8, 8, tl=7, nd=n) for n in (0, 230, 231, 232, 1100)]
+    pkts = [(report_octets(a), [len(a[1])] + a[6]) for a in reps]
+    for i, (pkt, pr) in enumerate(pkts):
+        other = pkts[(i + 1) % len(pkts)][0]
+        sufs = [[], [rng.randrange(256)], [0, 0], [0xFF, 0xFF], pc.rbytes(rng, 2), [0x55] * 7, list(other), list(pkt),
+                list(pkt[-2:]), pc.rbytes(rng, rng.choice([3, 16, 300]))]
+        for sfx in sufs:
+            cases.append((767, [pkt + sfx, pr]))
+    return cases
+
+
+def report_with_crc_coincidence(rng, a, p, target):
+    """the report arguments with sequence count / destination ID / two timestamp octets rewritten such that the CRC over
+    the first p octets of the packed report is `target`; None when no admissible window exists"""
+    body = report_octets(a)[:-2]
+    tl = len(a[1])
+    wins = ([p - 2] if 13 <= p - 2 and p <= 13 + tl else []) + [11, 2]
+    if rng.random() < 0.5:
+        wins = [2, 11] + wins
+    b2 = pc._force_prefix(body, min(p, len(body)), target, wins)
+    if b2 is None:
+        return None
+    out = [list(x) for x in a]
+    out[0][2] = (b2[2] & 0x3F) * 256 + b2[3]
+    out[0][5] = b2[11] * 256 + b2[12]
+    out[1] = list(b2[13:13 + tl])
+    assert report_octets(out)[:-2] == b2
+    return out
+
+
+def crc_coincidence_cases(rng, big):
+    """reports SEARCHED such that the CRC over the primary header, over every boundary of the secondary header, over the
+    source data and over the whole packet (= the trailer) is 0x0000 / 0xFFFF: packed, decoded, every observable"""
+    cases = []
+    for k in range(1, 9):
+        for tl in (0, 7):
+            a0 = rand_report(rng, k, tl=tl)
+            n = len(report_octets(a0)) - 2
+            for p in pc.boundaries(13 + tl, n):
+                for t in pc.CRC_TARGETS:
+                    a = None
+                    for _ in range(100):
+                        a = report_with_crc_coincidence(rng, rand_report(rng, k, a0[6][0], a0[6][1], tl=tl, nd=len(a0[5])), p, t)
+                        if a is not None:
+                            break
+                    if a is None:
+                        continue
+                    pkt = report_octets(a)
+                    pr = [tl] + a[6]
+                    cases.append((741, a[:6])); cases.append((742, a))
+                    cases.append((743, [pkt, pr])); cases.append((767, [pkt + pc.rbytes(rng, rng.choice([0, 2, 9])), pr]))
+    return cases
 
 
 # ------------------------------------------------------------------ oracle
@@ -1358,6 +1518,43 @@ def oracle(case, ires, sres):
         if ires[1] != [1]:
             return ("C15/Service1Tm.__eq__/decoded-not-equal",
                     "the decoded report has the same request ID, step, code and data but does not compare equal to the original: %s" % (a[:6],))
+        return None
+    if op == 799:
+        if ires != [[0], [1]]:
+            kind, helper, apid = a[0]
+            ent = "RequestId.from_pus_tc" if helper == 0 else "create_tm(%d)" % helper
+            stage = {1: "request ID returned", 2: "request ID in the packed source data", 3: "request ID of the decoded report"}
+            d = ires[1] if len(ires) > 1 else []
+            return ("C15/%s/stand-in-request-id-differs" % ent.split("(")[0],
+                    "%s given a %s for the telecommand neither refuses it nor identifies it: %s is %s, the four octets that "
+                    "identify the telecommand are %s (fields %s)" % (ent, STAND_INS[kind] if 0 <= kind < len(STAND_INS) else kind,
+                                                                     stage.get(d[3] if len(d) > 3 else 0, "result"), d[4:], reqid_layout(a[1]), a[1]))
+        return None
+    if op == 767:
+        r = oracle((743, a), ires[:11], sres)
+        if r is not None:
+            return r
+        b = a[0]; tl = a[1][0]
+        n = b[4] * 256 + b[5] + 7 if len(b) >= 6 else None
+        if err:
+            if n is not None and n < len(b) and core.run_impl(impl, 767, [b[:n], a[1]])[0] == [0]:
+                return ("C15/Service1Tm.unpack/suffix-refused", "a report accepted on its own is refused when %d further octets follow: %s" % (len(b) - n, ires))
+            return None
+        unit = b[:n]
+        where = "report of %d octets decoded from a buffer of %d octets (%s behind it)" % (n, len(b), b[n:n + 8])
+        if ires[5] != [1] + unit[-2:]:
+            return ("C15/Service1Tm.unpack/crc16-not-the-trailer", "%s: crc16 reads %s, the packet's trailer is %s" % (where, ires[5], unit[-2:]))
+        if ires[6] != [n] or ires[3] != b[13:13 + tl] or ires[4] != b[13 + tl:n - 2]:
+            return ("C15/Service1Tm.unpack/telemetry-fields", "%s: packet_len %s, timestamp %s, source data %s" % (where, ires[6], ires[3], ires[4][:16]))
+        if ires[11] != unit:
+            return ("C15/Service1Tm.unpack-pack/recalc-false-differs", "%s: pus_tm.pack(recalc_crc=False) gives ... %s, the accepted octets end in %s" % (
+                where, ires[11][-4:], unit[-4:]))
+        if ires[12] != unit:
+            return ("C15/Service1Tm.unpack/re-pack", "%s: re-pack ... %s != accepted octets ... %s" % (where, ires[12][-4:], unit[-4:]))
+        if ires[13] != [1, 1]:
+            return ("C15/Service1Tm.unpack/suffix-changes-equality", "%s: not equal to the report decoded from exactly its octets: %s" % (where, ires[13]))
+        if ires[14:24] != ires[1:11]:
+            return ("C15/Service1Tm.pack/changes-decoded-object", "%s: fields after the two packs differ from the fields before" % where)
         return None
     if op in (743, 746, 748, 744):
         name = "Service1Tm.from_tm" if op == 744 else "Service1Tm.unpack"
@@ -1707,4 +1904,14 @@ DECODERS = [
      "declared_len": lambda b: b[4] * 256 + b[5] + 7},
     {"op": 743, "name": "Service1Tm.unpack(2,4)", "extra": [[0, 2, 4]], "valid": lambda rng: _valid_reports(rng, 30, 0, 2, 4),
      "declared_len": lambda b: b[4] * 256 + b[5] + 7},
+    # every observable of the decoded report (crc16, pack with and without recalculation, equality), see op 767
+    {"op": 767, "name": "Service1Tm.unpack+views", "extra": [[7, 2, 1]], "valid": lambda rng: _valid_reports(rng, 16, 7, 2, 1),
+     "declared_len": lambda b: b[4] * 256 + b[5] + 7},
 ]
+# the units of these decoders end in a CRC-16 trailer over the declared length ("crc": how C09 / C10 repair it after a
+# mutation); "param_variants": other values of the decoder's parameters the cross-cutting checks try
+for _d in DECODERS:
+    if _d["op"] in (743, 767):
+        _d["crc"] = "pus"
+        _d["param_variants"] = [[[tl, _d["extra"][0][1], _d["extra"][0][2]]] for tl in range(0, 19)] + \
+                               [[[_d["extra"][0][0], ws, we]] for ws in (1, 2, 4, 8) for we in (1, 2, 4, 8)]
